@@ -532,33 +532,29 @@ func r035(c *Ctx, r *R) {
 	for _, im := range impls {
 		f := im.fn
 		short := im.name[len(ModPath)+1:]
-		leaves := returnLeaves(f, 0)
 		okShape := false
-		for _, lf := range leaves {
-			call, _ := originCall(lf.Val)
-			if call == nil || callName(call.Common()) != "builtin.append" {
+		for _, lf := range returnLeaves(f, 0) {
+			// the result as a sequence of sorted segments, wherever the
+			// concatenation is written (here or in a shared helper)
+			segs, pos, ok := sortSegments(lf.Val, map[*ssa.Parameter]ssa.Value{}, 0)
+			if !ok || len(segs) != 2 {
 				continue
 			}
-			a := call.Common().Args
-			first, _ := originCall(a[0])
-			last, _ := originCall(a[1])
-			if first == nil || last == nil || !nameMatches(callName(first.Common()), "allocator/util.SortNumeric") || !nameMatches(callName(last.Common()), "allocator/util.SortNumeric") {
-				continue
-			}
+			first, last := segs[0], segs[1]
 			okShape = true
 			np := len(f.Params)
-			prioFirst := paramIndex(f, first.Common().Args[0]) == np-1 && paramIndex(f, last.Common().Args[0]) == np-2
-			r.Check(prioFirst, "priority-first:"+short, call.Pos(), "user-requested peers are listed before the other candidates", short+" does not put the priority peers first (candidates before priority, or a set used twice)")
-			k1, ok1 := constOf(first.Common().Args[1])
-			k2, ok2 := constOf(last.Common().Args[1])
+			prioFirst := paramIndex(f, first.set) == np-1 && paramIndex(f, last.set) == np-2
+			r.Check(prioFirst, "priority-first:"+short, pos, "user-requested peers are listed before the other candidates", short+" does not put the priority peers first (candidates before priority, or a set used twice)")
+			k1, ok1 := constOf(first.rev)
+			k2, ok2 := constOf(last.rev)
 			same := ok1 && ok2 && (k1 != nil && constant.BoolVal(k1)) == (k2 != nil && constant.BoolVal(k2))
-			r.Check(same, "one-direction:"+short, call.Pos(), "both sorts use the same direction", short+" sorts priority peers and candidates in different directions")
+			r.Check(same, "one-direction:"+short, pos, "both sorts use the same direction", short+" sorts priority peers and candidates in different directions")
 			if same {
 				dirs[short] = k1 != nil && constant.BoolVal(k1)
 			}
 		}
 		if !okShape {
-			r.Und("shape:"+short, f.Pos(), "%s.Allocate is not `append(SortNumeric(priority), SortNumeric(candidates)...)`: shape not recognised", short)
+			r.Und("shape:"+short, f.Pos(), "%s.Allocate is not a concatenation of two SortNumeric results: shape not recognised", short)
 		}
 	}
 	if len(dirs) == 2 {
@@ -592,22 +588,62 @@ func r035(c *Ctx, r *R) {
 	// Less honours the flag
 	ls := c.fn(r, "allocator/util", "metricSorter.Less")
 	if ls != nil {
-		okRev, okFwd := false, false
-		for _, lf := range returnLeaves(ls, 0) {
-			b, ok := lf.Val.(*ssa.BinOp)
-			if !ok {
-				continue
+		// evaluated on a two-element model (peers[k] = k, value of peer 0 is
+		// 1, of peer 1 is 2): Less(i, j) must be value(i) < value(j), and
+		// value(i) > value(j) when the reverse flag is set - however the
+		// function is written (two comparisons, swapped indices, a helper)
+		okLess, why := true, ""
+		for _, sc := range []struct {
+			i, j    int64
+			reverse bool
+			want    bool
+		}{{0, 1, false, true}, {1, 0, false, false}, {0, 1, true, false}, {1, 0, true, true}} {
+			ssaEvalHook = func(v ssa.Value, eval func(ssa.Value) (constant.Value, bool)) (constant.Value, bool) {
+				switch x := v.(type) {
+				case *ssa.UnOp:
+					if x.Op != token.MUL {
+						return nil, false
+					}
+					// s.peers[k] -> k
+					if ia, ok := x.X.(*ssa.IndexAddr); ok {
+						if fl, _ := fieldLoad(ia.X); fl != nil {
+							if _, isSlice := fl.Type().Underlying().(*types.Slice); isSlice {
+								return eval(ia.Index)
+							}
+						}
+					}
+					// s.reverse
+					if fl, _ := fieldLoad(x); fl != nil {
+						if bt, ok := fl.Type().Underlying().(*types.Basic); ok && bt.Kind() == types.Bool {
+							return constant.MakeBool(sc.reverse), true
+						}
+					}
+				case *ssa.Field:
+					if fl, _ := fieldLoad(x); fl != nil {
+						if bt, ok := fl.Type().Underlying().(*types.Basic); ok && bt.Kind() == types.Bool {
+							return constant.MakeBool(sc.reverse), true
+						}
+					}
+				case *ssa.Lookup:
+					// s.values[k] -> k+1
+					if fl, _ := fieldLoad(x.X); fl != nil {
+						if _, isMap := fl.Type().Underlying().(*types.Map); isMap && !x.CommaOk {
+							if k, ok := eval(x.Index); ok {
+								return constant.BinaryOp(k, token.ADD, constant.MakeInt64(1)), true
+							}
+						}
+					}
+				}
+				return nil, false
 			}
-			rev := lf.GuardedBy(func(g Guard) bool { return gField(g, "reverse", true) })
-			fwd := !rev
-			if rev && b.Op == token.GTR {
-				okRev = true
-			}
-			if fwd && b.Op == token.LSS {
-				okFwd = true
+			_, got, ok := ssaEval(ls, bindParams(ls, map[int]constant.Value{1: constant.MakeInt64(sc.i), 2: constant.MakeInt64(sc.j)}))
+			ssaEvalHook = nil
+			if !ok || got.Kind() != constant.Bool || constant.BoolVal(got) != sc.want {
+				okLess = false
+				why += fmt.Sprintf(" Less(%d,%d) reverse=%v: want %v (evaluated: %v);", sc.i, sc.j, sc.reverse, sc.want, ok)
 			}
 		}
-		r.Check(okRev && okFwd, "sorter:less", ls.Pos(), "Less is x > y when reversed, x < y otherwise", "metricSorter.Less does not order by the reverse flag")
+		r.Check(okLess, "sorter:less", ls.Pos(), "Less is value(i) < value(j), reversed by the flag (evaluated on a two-element model)", "metricSorter.Less does not order by value and the reverse flag:"+why)
 	}
 }
 
@@ -703,4 +739,66 @@ func keyOfParamLocal(h *ssa.Function, v ssa.Value, idx int) bool {
 		}
 	}
 	return false
+}
+
+// sortSeg is one SortNumeric(set, rev) piece of an allocation order, with
+// set and rev expressed in the terms of the function the walk started from.
+type sortSeg struct{ set, rev ssa.Value }
+
+// sortSegments reads v as a concatenation of SortNumeric results: appends
+// are flattened and repository helpers are entered with their parameters
+// bound to the arguments of the call.
+func sortSegments(v ssa.Value, env map[*ssa.Parameter]ssa.Value, depth int) ([]sortSeg, token.Pos, bool) {
+	if depth > 4 {
+		return nil, token.NoPos, false
+	}
+	resolve := func(x ssa.Value) ssa.Value {
+		for n := 0; n < 8; n++ {
+			x = stripLocal(x)
+			p, ok := x.(*ssa.Parameter)
+			if !ok {
+				return x
+			}
+			b, ok := env[p]
+			if !ok {
+				return x
+			}
+			x = b
+		}
+		return x
+	}
+	v = resolve(v)
+	call, _ := originCallLocal(v)
+	if call == nil {
+		return nil, token.NoPos, false
+	}
+	cc := call.Common()
+	switch {
+	case callName(cc) == "builtin.append" && len(cc.Args) == 2:
+		a, _, ok1 := sortSegments(cc.Args[0], env, depth+1)
+		b, _, ok2 := sortSegments(cc.Args[1], env, depth+1)
+		if !ok1 || !ok2 {
+			return nil, token.NoPos, false
+		}
+		return append(a, b...), call.Pos(), true
+	case nameMatches(callName(cc), "allocator/util.SortNumeric") && len(cc.Args) == 2:
+		return []sortSeg{{resolve(cc.Args[0]), resolve(cc.Args[1])}}, call.Pos(), true
+	}
+	g := cc.StaticCallee()
+	if g == nil || !isRepoFn(g) || len(g.Blocks) == 0 || len(g.Params) != len(cc.Args) {
+		return nil, token.NoPos, false
+	}
+	env2 := map[*ssa.Parameter]ssa.Value{}
+	for k, x := range env {
+		env2[k] = x
+	}
+	for i, p := range g.Params {
+		env2[p] = resolve(cc.Args[i])
+	}
+	leaves := returnLeaves(g, 0)
+	if len(leaves) != 1 {
+		return nil, token.NoPos, false
+	}
+	segs, _, ok := sortSegments(leaves[0].Val, env2, depth+1)
+	return segs, call.Pos(), ok
 }
